@@ -56,6 +56,10 @@ CHECKS = {
    technique="explicit-state search over API operation histories on the real Document (successor = replay on a fresh instance + one operation), every history up to depth D, with a fresh-decode self-model as oracle",
    text="From 4 initial documents every history of up to 3 (quick) / 4 (thorough) operations over ~45 operation instances on the colliding pool {I1,I2,I3,F1,F2} - edits (add/delete/replace children, add individuals/families, set/clear husband/wife, add children, delete root records), an explicit warm-all-views operation, and read-only operations (Warnings, String, Compare, SurroundingSimilarity, CompareNodes+Sort, copy-out via DeepCopy/Filter/Flatten, Publish, queries) - is executed on the real code; at the end every derived view (NodesWithTag for every node and tag, Individuals, Families, NodeByPointer, per-individual Names/Events/Families/Spouses/Parents/Children/SpouseChildren, per-family Husband/Wife/Children/HasChild) must equal the same view on a fresh decode of the document's text, and a read-only operation must leave the text unchanged.",
    note="Histories are not deduplicated (a state is the history that reaches it); failing histories are not extended so the first counter-example is the shortest and later operations are not blamed. Signatures group (operation kind, view family). No random long histories."),
+ "C14": dict(engine="E3", category="exploration", design_ref="§4 C14",
+   technique="bounded-exhaustive enumeration of fault subsets (all subsets up to k of 29 structural faults) x every command configuration, executed on the built binary with a process-level crash/hang oracle",
+   text="The gedcom binary built from the working tree is run on the base family graph perturbed by every subset of up to 2 (quick) / 3 (thorough) of 29 structural faults, each accepted by the decoder, under: warnings; publish x living {show,hide,placeholder} x page-group switch sets (8 quick / all 64 thorough) x jobs {1,2}; diff against itself and the clean base x show x sort x jobs; 20 queries x 5 formats. Every run must exit 0, or 1 with an ERROR: line, without 'panic:'/'fatal error:' on stderr, within a 20 s watchdog.",
+   note="Crash signatures carry command kind, innermost repository frame, message class and the minimal reproducing fault subset; because map order and goroutine timing decide which page crashes first, a replay confirms a finding when the same command kind crashes again (>=1 of 5 replays). After a hang the remaining variants of that command kind are skipped for that file."),
  "C20": dict(engine="E3", category="exploration", design_ref="§4 C20",
    technique="bounded-exhaustive enumeration of skeleton family graphs x all slot assignments with up to k deviations from threshold lattices x all record/child permutations, against an independent reference evaluator of the documented warning conditions",
    text="Skeleton documents (two families sharing a parent with 0-3 children; a 5-record family) with each date/sex slot either at a no-warning default or at a value clearly on one side of a documented threshold; every assignment with up to 2 (quick) / 3 (thorough) deviating slots; all 120 record orders x both child orders of the small skeleton; the multiset of (warning name, people, context) from Document.Warnings() must equal the reference evaluator's.",
